@@ -35,7 +35,7 @@ def main():
     rng = np.random.default_rng(seed())
     closures = ["MOST", "MOSTM", "CONSTANT"]
     mols = [-60.0, 150.0] if t == "quick" else [-30.0, -200.0, 150.0, 1e9]
-    grids = [(40, 40, 400.0, 400.0), (48, 24, 600.0, 300.0)]
+    grids = [(40, 40, 400.0, 400.0), (48, 24, 600.0, 300.0), (40, 32, 400.0, 400.0)]     # square cells twice; dx = 10, dy = 12.5 (pad widths differ per axis)
     speeds = [3.0] if t == "quick" else [1.5, 3.0, 7.0]
     R = 6_371_000.0
     obs, meta = [], []
